@@ -217,7 +217,7 @@ class C01(Property):
                     res.disagreements.append(Disagreement(case, o['enc'][:200], me[:200], 'encode'))
                 if md != o['dec']:
                     res.disagreements.append(Disagreement(case, o['dec'][:200], md[:200], 'decode'))
-                if model[3 * k + 2] != 'dom 1':
+                if model[3 * k + 2] != 'dom 1 plain 1':
                     res.disagreements.append(Disagreement(case, 'generated as in-domain', model[3 * k + 2],
                                                           'domain: generator value outside the theorems\' inDomain'))
             oracle = pinned_model if pinned_model is not None else (model if same_layout else None)
